@@ -38,6 +38,7 @@ type Run struct {
 	ID, Tier, Level string
 	Seed            int64
 	Root            string // /verif
+	Out             string // output root for evidence/ and replays/
 	start           time.Time
 
 	evals    int64
@@ -69,7 +70,11 @@ func NewRun(id, tier string, seed int64, level string) *Run {
 	if root == "" {
 		root = "/verif"
 	}
-	r := &Run{ID: id, Tier: tier, Seed: seed, Level: level, Root: root, start: time.Now(),
+	out := os.Getenv("VERIF_OUT") // where evidence/ and replays/ go (default: the verif root); mutant runs use a scratch directory
+	if out == "" {
+		out = root
+	}
+	r := &Run{ID: id, Tier: tier, Seed: seed, Level: level, Root: root, Out: out, start: time.Now(),
 		classes: map[string]int64{}, viol: map[string]*Violation{}, maxima: map[string]float64{},
 		Extra: map[string]interface{}{}, MinEvals: 1}
 	for i := range r.shards {
@@ -202,7 +207,7 @@ func (r *Run) Violation(sig, what string, c interface{}) {
 	r.viol[sig] = v
 	r.violSeq = append(r.violSeq, sig)
 	// replay file
-	dir := filepath.Join(r.Root, "replays")
+	dir := filepath.Join(r.Out, "replays")
 	os.MkdirAll(dir, 0o755)
 	name := fmt.Sprintf("%s-%016x.json", r.ID, hashStr(sig))
 	v.Replay = filepath.Join(dir, name)
@@ -335,8 +340,8 @@ func (r *Run) Finish() int {
 		"violations":  nviol,
 	}
 	b, _ := json.MarshalIndent(ev, "", " ")
-	os.MkdirAll(filepath.Join(r.Root, "evidence"), 0o755)
-	if err := os.WriteFile(filepath.Join(r.Root, "evidence", r.ID+".json"), append(b, '\n'), 0o644); err != nil {
+	os.MkdirAll(filepath.Join(r.Out, "evidence"), 0o755)
+	if err := os.WriteFile(filepath.Join(r.Out, "evidence", r.ID+".json"), append(b, '\n'), 0o644); err != nil {
 		fmt.Println("cannot write evidence:", err)
 		if code == 0 {
 			code = 2
